@@ -68,6 +68,8 @@ def _scn(draw):
             final = hist.draw_step(draw, m, "create", dict(CFG, nest=False))
             final["root"] = ""
     scn["final"] = final
+    if draw(st.integers(0, 7)) == 0:
+        scn["root"] = draw(st.sampled_from(["L" * 224, "n" * 220 + "\u00e9\u00e9", "x" * 200, "R" * 227]))
     return scn
 
 
@@ -130,7 +132,7 @@ def run_case(scn, ctx):
         ops = fs.ops
         points = []
         for k, (kind, path, n) in enumerate(ops):
-            if kind in ("mkdir", "open", "flush", "close", "rename", "replace", "remove", "unlink"):
+            if kind in ("mkdir", "open", "flush", "close", "rename", "replace", "remove", "unlink", "truncate"):
                 points.append((k, "before"))
                 points.append((k, "interrupt"))
             if kind == "flush" and n >= 2:
